@@ -353,7 +353,9 @@ func (e *Engine) CheckAll() {
 		modelCache[line] = t
 		return t
 	}
-	for _, n := range e.nodes {
+	nowOK := map[uint64]bool{}
+	defer func() { e.prevOK = nowOK }()
+	for ni, n := range e.nodes {
 		e.negativeViews(n)
 		views := e.openViews(n)
 		e.recheckHeld(n, qs)
@@ -377,6 +379,10 @@ func (e *Engine) CheckAll() {
 				}
 				got := readOne(v.reader, q)
 				want := expected(st, q, v.label == "head")
+				rk := readKey(ni, v.label, v.n, qi)
+				if contains(want, got) {
+					nowOK[rk] = true
+				}
 				if v.label != "head" && !differs {
 					if w2 := expected(headSt, q, false); w2[0] != want[0] {
 						differs = true
@@ -400,17 +406,10 @@ func (e *Engine) CheckAll() {
 					qj := qjson(q)
 					qj["node"], qj["backend"], qj["view"], qj["n"] = n.name, n.kind, v.label, v.n
 					qj["got"], qj["want"] = got, strings.Join(want, "|")
-					// (by-number and by-hash views of a block fail together; by-hash views are sampled)
-					vl := v.label
-					if vl == "hash" {
-						vl = "num"
-					}
-					base := n.kind + "-" + vl + "-" + kind + "-" + classify(want, got) + suffix
-					if isDiscarded(e.lastOp) && !e.baseSeen[base] {
-						// first seen right after an operation that must have no effect: that is the cause
+					// the cause is the discarded operation only if this very read was made, and was
+					// right, at the check before it (the chain is the same before and after)
+					if isDiscarded(e.lastOp) && e.prevOK[rk] {
 						suffix += "-after-discarded-" + e.lastOp
-					} else {
-						e.baseSeen[base] = true
 					}
 					e.fail(Failure{Violation: true, Sig: n.kind + "-" + v.label + "-" + kind + "-" + classify(want, got) + suffix,
 						What: fmt.Sprintf("%s backend, %s view of block %d (head %d): %s %v = %s, the state diffs up to block %d give %s",
@@ -490,6 +489,17 @@ func (e *Engine) deployedAndReplaced(st *lib.AbsState, a *felt.Felt) bool {
 	}
 	_, both := e.descs[c.DeployedAt].Diff.ReplacedClasses[*a]
 	return both
+}
+
+func readKey(node int, label string, n, q int) uint64 {
+	l := uint64(0)
+	switch label {
+	case "num":
+		l = 1
+	case "hash":
+		l = 2
+	}
+	return uint64(node)<<60 | l<<56 | uint64(n)<<24 | uint64(q)
 }
 
 func tokClass(t string) string {
